@@ -140,6 +140,48 @@ def main(out_path):
         regions[nm] = {'file': 'functions/l1-norm.hpp', 'hash': cp.ast_hash(ss)}
         defs.append(txt)
 
+    # L1Norm::prox — the returned values `λ * norm_1(out.reshaped())` / `norm_1(out.cwiseProduct(λ).reshaped())`
+    # ("returns h at that point") and, pinned textually, the two special branches the hand model mirrors:
+    # `if (λ == 0) { out = in; return 0; }` and the empty-weight default `λ = weight_t::Ones(n)`.
+    for k, nm, lamty in ((0, 'l1ValueScalarW', 'S'), (1, 'l1ValueVectorW', 'V')):
+        st = cp.find_statement(proxbody, r'return\s+[^;]*norm_1', k)
+        ss = cp.parse_statements(st)
+        envv = {'λ': ('lam', lamty), 'out': ('out', 'V')}
+        em = Emitter(lambda d: envv.get(d))
+        txt = em.function(nm, [('λ', 'lam', lamty), ('out', 'out', 'V')], ss, 'S',
+                          doc=f'functions/l1-norm.hpp L1Norm::prox, returned value {k}')
+        lits.update(em.nat_lits)
+        regions[nm] = {'file': 'functions/l1-norm.hpp', 'hash': cp.ast_hash(ss)}
+        defs.append(txt)
+    flat = re.sub(r'\s+', '', proxbody)
+    for need in ('if(λ==0){out=in;return0;}', 'ifconstexpr(std::is_same_v<weight_t,vec>)if(λ.size()==0)λ=weight_t::Ones(n);',
+                 'ifconstexpr(scalar_weight){', 'constlength_tn=in.size();'):
+        if flat.count(need) != 1:
+            raise cp.TranslationError(f'L1Norm::prox: branch structure changed (expected exactly one {need!r})')
+    regions['l1ProxBranches'] = {'file': 'functions/l1-norm.hpp',
+                                 'hash': cp.ast_hash([re.sub(r'assert\([^;]*\);', '', flat)])}
+
+    # prox_step_fn — the generic default (prox_step from prox): `fb_step = in + γ_fwd * fwd_step;`
+    # `auto &&h_out = prox(func, fb_step, out, γ);` `fb_step = out - in;` `return h_out;`
+    psrc = cp.strip_comments(open(INC + 'functions/prox.hpp', encoding='utf8').read())
+    _, psbody = cp.find_region(psrc, r'struct\s+prox_step_fn\s*\{')
+    _, dflt = cp.find_region(psbody, r'->\s*typename\s+T::config_t::real_t\s*\{', 1)
+    sts = [re.sub(r'\s+', ' ', x).strip() for x in dflt.split(';') if x.strip()]
+    if len(sts) != 4 or re.sub(r'\s+', '', sts[1]) != 'auto&&h_out=prox(func,fb_step,out,γ)' \
+            or re.sub(r'\s+', '', sts[3]) != 'returnh_out':
+        raise cp.TranslationError(f'prox_step default implementation changed: {sts!r}')
+    for nm, st, params, outn in (('proxStepDefaultFwd', sts[0] + ';', ['in', 'γ_fwd', 'fwd_step'], 'fb_step'),
+                                 ('proxStepDefaultFb', sts[2] + ';', ['out', 'in'], 'fb_step')):
+        ss = cp.parse_statements(st)
+        env = S(*params)
+        em = Emitter(lambda d: env.get(d), componentwise=True)
+        txt = em.function(nm, [(n, env[n][0], 'S') for n in params], ss, None, outputs=[outn],
+                          out_types={outn: 'S'},
+                          doc=f'functions/prox.hpp prox_step_fn default implementation: `{st}`')
+        lits.update(em.nat_lits)
+        regions[nm] = {'file': 'functions/prox.hpp', 'hash': cp.ast_hash(ss)}
+        defs.append(txt)
+    regions['proxStepDefaultShape'] = {'file': 'functions/prox.hpp', 'hash': cp.ast_hash(sts)}
 
     # ------------------------------------------------------------------ L1NormComplex::prox
     # The two `soft_thres` lambdas (scalar / per-component weight).  A `cplx_t` value is a pair
